@@ -767,8 +767,13 @@ spif_linked_list_insert_at(spif_linked_list_t self, spif_obj_t obj, spif_listidx
     }
     REQUIRE_RVAL(idx >= 0, FALSE);
 
-    if (idx == 0 || SPIF_LINKED_LIST_ITEM_ISNULL(self->head)) {
+    if (idx == 0) {
         return spif_linked_list_prepend(self, obj);
+    }
+    if (SPIF_LINKED_LIST_ITEM_ISNULL(self->head)) {
+        /* Empty list:  position 0 becomes the first NULL placeholder. */
+        self->head = spif_linked_list_item_new();
+        self->len++;
     }
     for (current = self->head, i = 1; current->next && i < idx; i++, current = current->next);
     for (; i < idx; i++, current = current->next) {
